@@ -5,6 +5,7 @@ import EpdVerif.Oracle.Pure
 import EpdVerif.Oracle.All
 import EpdVerif.Props.Structural
 import EpdVerif.Big
+import EpdVerif.E2E
 /-!
 # epdmodel — runs the Lean model on scenario lines and compares it with the harness trace
 
@@ -270,6 +271,51 @@ def main (args : List String) : IO UInt32 := do
           let lutCur := hasRef && (name == "lutnone" || ((name == "wake" || name == "new") && Spec.initUploads p.name)) &&
             dsProgs.all fun (d, a) => Props.lutMatches f p d.refresh a
           IO.println s!"S {p.name} {name} sleepDeep={sleepDeep} wakeNew={wakeNew} lutSel={lutSel} lutCur={lutCur} resetFirst={all (Props.C11.goodResets true)} resetAny={all (Props.C11.goodResets false)} abs0={show1 s0} abs1={show1 s1} conforms={all (Props.opConforms p (if name.startsWith "lut" then "lut" else if name.startsWith "refresh" then "refresh" else name))}"
+    return 0
+  | "e2e" :: rest => do
+    -- material for the end-to-end theorems: for every panel / full-frame entry point, from a fresh
+    -- driver: the controller blocks for two different buffer contents (which blocks depend on the
+    -- buffer?) and the addressing state of the companion run when each data block arrives
+    let f : Feat := { v2 := rest.contains "v2", alt := rest.contains "alt" }
+    for p in panels f do
+      let n := (p.width + 7) / 8 * p.height
+      let nb := if p.name == "epd7in5b_v2" then 2 * n else if Spec.isOct p.name then p.width / 2 * p.height else n
+      let opsS : List (String × Nat × (Bytes → Bytes → Op)) := [("upd", nb, fun b _ => .upd b), ("updisp", nb, fun b _ => .updisp b),
+        ("old", n, fun b _ => .old b), ("newf", n, fun b _ => .newf b), ("updispnew", n, fun b _ => .updispnew b),
+        ("color", n, fun b c => .color b c), ("achro", n, fun b _ => .achro b), ("chro", n, fun b _ => .chro b),
+        ("base", n, fun b _ => .base b)]
+      for (name, len, mk) in opsS do
+        let tg := Spec.fullTargets p.name name
+        if tg.isEmpty then continue
+        match p.prog p.init (mk [] []) with
+        | none => pure ()
+        | some [Act.panic] => pure ()
+        | some _ =>
+          let za : Bytes := List.replicate len 0
+          let zb : Bytes := (List.range len).map fun i => posByte i
+          let zc : Bytes := (List.range len).map fun i => posByte (i + 7)
+          let blocksA := p.blocks [.new, mk za za]
+          let blocksB := p.blocks [.new, mk zb zc]
+          let holes := ((List.range blocksA.length).filter fun i => blocksA[i]? != blocksB[i]?)
+          -- which argument (and encoding) a buffer-dependent block carries
+          let srcOf (ps : Bytes) : String :=
+            let encs : List (String × Spec.Enc) := [("id", .id), ("inv", .inv), ("bpp2", .bpp2), ("bpp4", .bpp4), ("lo", .lo), ("hi", .hi)]
+            match (encs.flatMap fun (en, e) => [(0, zb), (1, zc)].filterMap fun (ai, z) =>
+                if ps == e.apply z then some s!"{ai}/{en}" else none) with
+            | x :: _ => x
+            | [] => "?"
+          let desc (i : Nat) : String := match blocksA[i]?, blocksB[i]? with
+            | some (.c c ps), some (.c _ psB) => s!"{i}:{hexByte c}:{ps.length}:{srcOf psB}"
+            | _, _ => s!"{i}:??:0:?"
+          -- companion addressing state at each hole (SSD)
+          let comp (i : Nat) : String := match p.ctrl with
+            | .ssd s0 =>
+              let c := (blocksA.take i).foldl Ssd.feed (s0.withPlanes #[] #[])
+              s!"{c.xs},{c.xe},{c.ys},{c.ye},{c.stride},{c.rows}"
+            | .uc u0 => s!"{u0.p1.size},{u0.p2.size}"
+          let fam := match p.family with | .ssd => "ssd" | .uc => "uc" | .acep => "acep"
+          let tgs := ";".intercalate (tg.map fun t => s!"{t.plane},{reprStr t.enc},{t.arg}")
+          IO.println s!"E {p.name} {fam} {name} len={len} nblocks={blocksA.length} sameLen={blocksA.length == blocksB.length} nopanic={p.noPanic [.new, mk za za]} holes={",".intercalate (holes.map desc)} comp={"|".intercalate (holes.map comp)} targets={tgs}"
     return 0
   | "check" :: sf :: tf :: rest => do
     let rec opt (k : String) : List String → Option String
